@@ -3,7 +3,7 @@ import ast
 
 from ..astx import (calls_in, dotted, norm, src, iter_nodes, assigned_targets, assigned_names,
                     const_value, is_const, parent_chain)
-from ..lib import (is_bytes_mode_text_guard, cfg_nodes_with_call, node_calls, returns, raises, raised_class, stmt_assigns_attr, callee_last,
+from ..lib import (call_arg, relation, truth, other, cmp_views, core, holds_region, conditions, eval_conditions, relation_tests, atom_key, expand_condition, mode_mismatch_conditions, is_bytes_mode_text_guard, cfg_nodes_with_call, node_calls, returns, raises, raised_class, stmt_assigns_attr, callee_last,
                    is_name, node_roots, guard_region, compare_parts, find_test_nodes)
 from ..linear import ctext
 from ..loader import AnalysisError
@@ -72,11 +72,16 @@ def run(R):
         rets = returns(f)
         last = [r for r in rets if is_name(r.ast.value, rp)]
         c.check(len(last) == 1, f, last[0].ast if last else None, 'a pattern already of the right type is returned unchanged', kind='ast', tag='passthrough')
-        tests = sorted([t for t in g.nodes if t.kind == 'test'], key=lambda t: t.id)
         pvn = [n2.targets[0].id for n2 in iter_nodes(f.node) if isinstance(n2, ast.Assign) and isinstance(n2.targets[0], ast.Name) and norm(n2.value) == '%s.pattern' % rp]
         pv_ = pvn[0] if pvn else 'p'
-        ok = len(tests) == 2 and is_bytes_mode_text_guard(tests[0].ast, pv_, True) and is_bytes_mode_text_guard(tests[1].ast, pv_, False)
-        c.check(ok, f, tests[0].ast if tests else None, 'str pattern + bytes mode -> bytes pattern; bytes pattern + text mode -> str pattern', kind='ast', tag='directions')
+        conds = {}
+        for k in ks:
+            a = k.args[0]
+            if isinstance(a, ast.Call) and callee_last(a) in ('encode', 'decode'):
+                conds[callee_last(a)] = conditions(g, g.node_for(k))
+        ok = conds.get('encode') == mode_mismatch_conditions(pv_, True) and conds.get('decode') == mode_mismatch_conditions(pv_, False)
+        c.check(ok, f, ks[0], 'str pattern + bytes mode -> bytes pattern; bytes pattern + text mode -> str pattern',
+                witness=str(dict((k_, sorted(v)) for k_, v in conds.items())), kind='path', tag='directions')
     with R.clause('D4', 'ORDER', floor=6, desc='validation completes before the Expecter exists; validators never touch the stream') as c:
         check_order(c, repo)
     with R.clause('D5', 'COERCE', floor=3, desc='text for a bytes-mode object is ascii-encoded; read(n) pattern uses DOTALL') as c:
@@ -86,10 +91,10 @@ def run(R):
         ok = len(ks) == 1 and is_const(ks[0].args[0], 'ascii') and is_name(ks[0].func.value, f.params[1])
         c.check(ok, f, ks[0] if ks else None, "text is converted with the 'ascii' codec (non-ASCII text for a bytes child is an error, not silently re-encoded)",
                 witness=norm(ks[0]) if ks else '', kind='ast', tag='ascii')
-        t = [x for x in g.nodes if x.kind == 'test']
-        okt = len(t) == 1 and is_bytes_mode_text_guard(t[0].ast, f.params[1], True)
+        got = conditions(g, g.node_for(ks[0])) if ks else None
         rr = [r for r in returns(f) if is_name(r.ast.value, f.params[1])]
-        c.check(okt and len(rr) == 1, f, t[0].ast if t else None, 'only non-bytes given to a bytes-mode object are converted', kind='ast', tag='guard')
+        c.check(got == mode_mismatch_conditions(f.params[1], True) and len(rr) == 1 and len(returns(f)) == 2 and not raises(f), f, ks[0] if ks else None,
+                'only non-bytes given to a bytes-mode object are converted', witness='converted under %s' % sorted(got or []), kind='path', tag='guard')
         f = repo.func('spawnbase:SpawnBase.read')
         ks = [k for k in calls_in(f.node) if dotted(k.func) == 're.compile']
         ok = len(ks) == 1 and len(ks[0].args) == 2 and norm(ks[0].args[1]) == 're.DOTALL' and isinstance(ks[0].args[0], ast.Call) and callee_last(ks[0].args[0]) == '_coerce_expect_string'
